@@ -112,6 +112,55 @@ Proof.
     repeat split; try reflexivity; [rewrite E1 | rewrite E2]; ring.
 Qed.
 
+(* ---- models with source vectors (TwoPortAModel ... TwoPortZModel doc-strings) ---------- *)
+Definition relAs (m : mat K) (s1 s2 : K) v : Prop :=
+  V1 v = m11 m * V2 v + m12 m * (- I2 v) + s1 /\ I1 v = m21 m * V2 v + m22 m * (- I2 v) + s2.
+Definition relGs (m : mat K) (s1 s2 : K) v : Prop :=
+  I1 v = m11 m * V1 v + m12 m * I2 v + s1 /\ V2 v = m21 m * V1 v + m22 m * I2 v + s2.
+Definition relHs (m : mat K) (s1 s2 : K) v : Prop :=
+  V1 v = m11 m * I1 v + m12 m * V2 v + s1 /\ I2 v = m21 m * I1 v + m22 m * V2 v + s2.
+Definition relYs (m : mat K) (s1 s2 : K) v : Prop :=
+  I1 v = m11 m * V1 v + m12 m * V2 v + s1 /\ I2 v = m21 m * V1 v + m22 m * V2 v + s2.
+Definition relZs (m : mat K) (s1 s2 : K) v : Prop :=
+  V1 v = m11 m * I1 v + m12 m * I2 v + s1 /\ V2 v = m21 m * I1 v + m22 m * I2 v + s2.
+(* a series one-port with Thevenin data (z, e), its + terminal at port 1:  V1 - V2 = e + z I1 *)
+Definition series_src_rel (z e : K) v : Prop := V1 v - V2 v = e + z * I1 v /\ I1 v = - I2 v.
+(* a shunt one-port with Norton data (y, j), its + terminal on the upper rail:  I1 + I2 = y V1 - j *)
+Definition shunt_src_rel (y j : K) v : Prop := V1 v = V2 v /\ I1 v + I2 v = y * V1 v - j.
+
+Theorem par2_src_sem (a b : mat K) (a1 a2 b1 b2 : K) v :
+  par_conn (relYs a a1 a2) (relYs b b1 b2) v <-> relYs (madd a b) (a1 + b1) (a2 + b2) v.
+Proof.
+  destruct a as [a11 a12 a21 a22], b as [b11 b12 b21 b22], v as [v1 i1 v2 i2]. unfold par_conn, relYs. tp_unfold. split.
+  - intros [i1a [i2a [i1b [i2b [[A1 A2] [[B1 B2] [E1 E2]]]]]]]. split; [rewrite E1, A1, B1 | rewrite E2, A2, B2]; ring.
+  - intros [E1 E2]. exists (a11 * v1 + a12 * v2 + a1), (a21 * v1 + a22 * v2 + a2), (b11 * v1 + b12 * v2 + b1), (b21 * v1 + b22 * v2 + b2).
+    repeat split; try reflexivity; [rewrite E1 | rewrite E2]; ring.
+Qed.
+Theorem ser2_src_sem (a b : mat K) (a1 a2 b1 b2 : K) v :
+  ser_conn (relZs a a1 a2) (relZs b b1 b2) v <-> relZs (madd a b) (a1 + b1) (a2 + b2) v.
+Proof.
+  destruct a as [a11 a12 a21 a22], b as [b11 b12 b21 b22], v as [v1 i1 v2 i2]. unfold ser_conn, relZs. tp_unfold. split.
+  - intros [v1a [v2a [v1b [v2b [[A1 A2] [[B1 B2] [E1 E2]]]]]]]. split; [rewrite E1, A1, B1 | rewrite E2, A2, B2]; ring.
+  - intros [E1 E2]. exists (a11 * i1 + a12 * i2 + a1), (a21 * i1 + a22 * i2 + a2), (b11 * i1 + b12 * i2 + b1), (b21 * i1 + b22 * i2 + b2).
+    repeat split; try reflexivity; [rewrite E1 | rewrite E2]; ring.
+Qed.
+Theorem hybrid2_src_sem (a b : mat K) (a1 a2 b1 b2 : K) v :
+  hyb_conn (relHs a a1 a2) (relHs b b1 b2) v <-> relHs (madd a b) (a1 + b1) (a2 + b2) v.
+Proof.
+  destruct a as [a11 a12 a21 a22], b as [b11 b12 b21 b22], v as [v1 i1 v2 i2]. unfold hyb_conn, relHs. tp_unfold. split.
+  - intros [v1a [i2a [v1b [i2b [[A1 A2] [[B1 B2] [E1 E2]]]]]]]. split; [rewrite E1, A1, B1 | rewrite E2, A2, B2]; ring.
+  - intros [E1 E2]. exists (a11 * i1 + a12 * v2 + a1), (a21 * i1 + a22 * v2 + a2), (b11 * i1 + b12 * v2 + b1), (b21 * i1 + b22 * v2 + b2).
+    repeat split; try reflexivity; [rewrite E1 | rewrite E2]; ring.
+Qed.
+Theorem inverse_hybrid2_src_sem (a b : mat K) (a1 a2 b1 b2 : K) v :
+  ihyb_conn (relGs a a1 a2) (relGs b b1 b2) v <-> relGs (madd a b) (a1 + b1) (a2 + b2) v.
+Proof.
+  destruct a as [a11 a12 a21 a22], b as [b11 b12 b21 b22], v as [v1 i1 v2 i2]. unfold ihyb_conn, relGs. tp_unfold. split.
+  - intros [i1a [v2a [i1b [v2b [[A1 A2] [[B1 B2] [E1 E2]]]]]]]. split; [rewrite E1, A1, B1 | rewrite E2, A2, B2]; ring.
+  - intros [E1 E2]. exists (a11 * v1 + a12 * i2 + a1), (a21 * v1 + a22 * i2 + a2), (b11 * v1 + b12 * i2 + b1), (b21 * v1 + b22 * i2 + b2).
+    repeat split; try reflexivity; [rewrite E1 | rewrite E2]; ring.
+Qed.
+
 (* ---- ladders: Ladder / LadderAlt build  tp := first; for m, arg: tp := tp.chain(X_m(arg)) *)
 Section Ladder.
 Variable chain : tpm K -> tpm K -> tpm K.
@@ -144,9 +193,10 @@ End Sections.
 
 Arguments series_rel {K}. Arguments shunt_rel {K}. Arguments transformer_rel {K}. Arguments gyrator_rel {K}.
 Arguments Lsection_rel {K}. Arguments Tsection_rel {K}. Arguments Pisection_rel {K}.
-Arguments relBs {K}. Arguments par_conn {K}. Arguments ser_conn {K}. Arguments hyb_conn {K}. Arguments ihyb_conn {K}.
+Arguments relBs {K}. Arguments relAs {K}. Arguments relGs {K}. Arguments relHs {K}. Arguments relYs {K}. Arguments relZs {K}.
+Arguments series_src_rel {K}. Arguments shunt_src_rel {K}. Arguments par_conn {K}. Arguments ser_conn {K}. Arguments hyb_conn {K}. Arguments ihyb_conn {K}.
 Arguments ladder_fold {K}. Arguments ladder_rel {K}. Arguments Bser {K}. Arguments Bsh {K}.
 (* a tree of cascades of series/shunt relations is the B relation of the product *)
 Ltac spec_B := intros; repeat first [ apply casc_B | apply series_rel_B | apply shunt_rel_B ].
-Ltac sec_spec_unfold := cbv [Bser Bsh series_rel shunt_rel transformer_rel gyrator_rel Lsection_rel Tsection_rel Pisection_rel relBs
+Ltac sec_spec_unfold := cbv [Bser Bsh relAs relGs relHs relYs relZs series_src_rel shunt_src_rel series_rel shunt_rel transformer_rel gyrator_rel Lsection_rel Tsection_rel Pisection_rel relBs
                              par_conn ser_conn hyb_conn ihyb_conn] in *.
